@@ -1,6 +1,119 @@
-import Lm.Struct.Queue
-import Lm.Struct.Stack
-import Lm.Struct.ListM
+import Lm.Inv.C12List
+/-!
+# C12 — Queue, stack, list keep their order discipline under all ops and iterators
+
+Property theorems only.  Models: `Lm.Struct.{Chain,Queue,Stack,ListM}` (linked chains with node
+identities, the queue's `tail` pointer, iterator links, transcribed from `Lib/structs/{queue,stack,
+list}.c` after the D-12a / D-12b fixes; tied to the compiled library by the correspondence check).
+Spec: the array machines of `Lm.Spec.C12` (content = plain list, iterator = cursor index).
+
+Histories: every finite sequence of API calls on one container handle and one iterator handle,
+subject to the iterator-invalidation rule `okRun` (while an iterator is live the container is
+modified only through it; `free` abandons an iterator).  NULL handles (calls after `free`, iterator
+calls without / after the end of an iteration) and NULL data are part of the histories.
+-/
 namespace Lm.Props.C12
-theorem C12_placeholder : True := trivial
+open Lm.Struct Lm.Spec.C12
+
+/-- The well-formedness invariant of a state of kind `k`. -/
+structure WellFormed (k : Kind) (s : St) : Prop where
+  /-- no NULL / dangling dereference has happened -/
+  nofault : s.fault = false
+  /-- `len` is the chain length, node identities are distinct, no stored pointer is NULL, and the
+  queue's `tail` names the last node (is NULL iff the queue is empty) -/
+  cont : ∀ q, s.obj = some q → q.len = q.chain.length ∧ (ids q.chain).Nodup ∧ (∀ nd ∈ q.chain, nd.val ≠ 0) ∧
+    (k = .queue → q.tail = lastId q.chain)
+  /-- a live iterator points at a link of the chain (never into a freed node); for queue and stack
+  it is on an element unless that element was just removed through it -/
+  itr : ∀ q it, s.obj = some q → s.itr = some it → ∃ p, linkPos q.chain it.elem = some p ∧ p ≤ q.chain.length ∧
+    (k ≠ .list → it.removed = false → p < q.chain.length)
+  /-- no iterator outlives its container -/
+  noitr : s.obj = none → s.itr = none
+
+theorem wellFormed_of_R {k : Kind} {s : St} {a : ASt} (h : R k s a) : WellFormed k s := by
+  obtain ⟨obj, itr, log, fault⟩ := s
+  cases obj with
+  | none =>
+    simp only [R] at h
+    exact ⟨h.1, (fun q hq => nomatch hq), (fun q it hq => nomatch hq), fun _ => h.2.2.2.2.2⟩
+  | some q =>
+    simp only [R] at h
+    obtain ⟨hf, _, _, _, _, _, wf, tl, hi⟩ := h
+    refine ⟨hf, ?_, ?_, (fun hq => nomatch hq)⟩
+    · intro q' hq; cases hq
+      refine ⟨wf.len, wf.nodup, wf.nonnull, ?_⟩
+      intro hk; subst hk; exact tl
+    · intro q' it hq hit; cases hq
+      simp only at hit; subst hit
+      obtain ⟨ac, _, hpos, hrem, _, hk⟩ := hi
+      refine ⟨ac.pos, hpos, linkPos_le hpos, ?_⟩
+      intro hne hr
+      cases k <;> simp_all
+
+/-- content of the container in container order (empty for a NULL handle) -/
+def content (s : St) : List Val := match s.obj with | some q => vals q.chain | none => []
+
+theorem content_of_R {k : Kind} {s : St} {a : ASt} (h : R k s a) : content s = a.xs ∧ s.log.map absEv = a.out := by
+  obtain ⟨obj, itr, log, fault⟩ := s
+  cases obj with
+  | none => simp only [R] at h; exact ⟨h.2.2.2.1.symm, h.2.1.symm⟩
+  | some q => simp only [R] at h; exact ⟨h.2.2.2.2.2.1.symm, h.2.1.symm⟩
+
+/-! ## Well-formedness is preserved by every operation, iterator operations at every position included -/
+
+/-- Queue: after every history the chain is well formed and **the tail pointer names the last node**
+(this is what D-12a broke), whatever was removed through iterators and wherever. -/
+theorem C12_queue_wellformed (dtor : Bool) (ops : List Queue.Op) (h : Queue.okRun (Queue.new dtor) ops = true) :
+    WellFormed .queue (Queue.run (Queue.new dtor) ops) :=
+  wellFormed_of_R (Queue.run_R ops (Queue.init_R dtor) h).1
+
+theorem C12_stack_wellformed (dtor : Bool) (ops : List Stack.Op) (h : Stack.okRun (Stack.new dtor) ops = true) :
+    WellFormed .stack (Stack.run (Stack.new dtor) ops) :=
+  wellFormed_of_R (Stack.run_R ops (Stack.init_R dtor) h).1
+
+theorem C12_list_wellformed (eq : Val → Val → Bool) (dtor cmp : Bool) (ops : List ListM.Op)
+    (h : ListM.okRun eq (ListM.new dtor cmp) ops = true) :
+    WellFormed .list (ListM.run eq (ListM.new dtor cmp) ops) :=
+  wellFormed_of_R (ListM.run_R eq ops (ListM.init_R dtor cmp) h).1
+
+/-! ## Refinement: the linked structures behave as the array machines
+
+For every history the chain model returns the same value for every call, produces the same
+destructor / iterator-position / callback events, and ends with the same content as the array
+machine, in which: `enq` appends and `deq`/`peek`/`rm` take the first element (FIFO); `push`
+prepends and `pop`/`peek`/`rm` take the first element (LIFO); `ins` adds one element leaving the
+others in order, `find`/`rm` hit the first element with `cmp = 0` or the same pointer; an iterator
+is a cursor index; the destructor is called exactly for the elements dropped by
+`rm`/`clear`/`free`/`it rm` and never for the ones returned by `deq`/`pop`. -/
+
+theorem C12_queue_refines_fifo (dtor : Bool) (ops : List Queue.Op) (h : Queue.okRun (Queue.new dtor) ops = true) :
+    Queue.trace (Queue.new dtor) ops = Spec.C12.Queue.trace (Spec.C12.Queue.init dtor) ops ∧
+    content (Queue.run (Queue.new dtor) ops) = (Spec.C12.Queue.run (Spec.C12.Queue.init dtor) ops).xs ∧
+    (Queue.run (Queue.new dtor) ops).log.map absEv = (Spec.C12.Queue.run (Spec.C12.Queue.init dtor) ops).out := by
+  have := Queue.run_R ops (Queue.init_R dtor) h
+  exact ⟨this.2, content_of_R this.1⟩
+
+theorem C12_stack_refines_lifo (dtor : Bool) (ops : List Stack.Op) (h : Stack.okRun (Stack.new dtor) ops = true) :
+    Stack.trace (Stack.new dtor) ops = Spec.C12.Stack.trace (Spec.C12.Stack.init dtor) ops ∧
+    content (Stack.run (Stack.new dtor) ops) = (Spec.C12.Stack.run (Spec.C12.Stack.init dtor) ops).xs ∧
+    (Stack.run (Stack.new dtor) ops).log.map absEv = (Spec.C12.Stack.run (Spec.C12.Stack.init dtor) ops).out := by
+  have := Stack.run_R ops (Stack.init_R dtor) h
+  exact ⟨this.2, content_of_R this.1⟩
+
+/-- for every comparator `eq` (no assumption on it at all) -/
+theorem C12_list_refines_multiset (eq : Val → Val → Bool) (dtor cmp : Bool) (ops : List ListM.Op)
+    (h : ListM.okRun eq (ListM.new dtor cmp) ops = true) :
+    ListM.trace eq (ListM.new dtor cmp) ops = Spec.C12.ListM.trace eq (Spec.C12.ListM.init dtor cmp) ops ∧
+    content (ListM.run eq (ListM.new dtor cmp) ops) = (Spec.C12.ListM.run eq (Spec.C12.ListM.init dtor cmp) ops).xs ∧
+    (ListM.run eq (ListM.new dtor cmp) ops).log.map absEv = (Spec.C12.ListM.run eq (Spec.C12.ListM.init dtor cmp) ops).out := by
+  have := ListM.run_R eq ops (ListM.init_R dtor cmp) h
+  exact ⟨this.2, content_of_R this.1⟩
+
+/-- Lengths are exact: what `m_*_len` reports is the number of elements (or `-EINVAL` for NULL). -/
+theorem C12_len_exact {k : Kind} {s : St} (h : WellFormed k s) :
+    cLen s.obj = (match s.obj with | some _ => ((content s).length : Int) | none => EINVAL) := by
+  cases ho : s.obj with
+  | none => rfl
+  | some q => simp [cLen, content, ho, (h.cont q ho).1, vals]
+
 end Lm.Props.C12
